@@ -18,7 +18,14 @@ youngest member):
 * the Lean model (Drive/C04.lean, one run per check): ids, len, filter.all, filter.manual,
   `_man_root_ids`, `parent_changed` (for *all* members, also the stale ones below a partial
   refresh); the tokens of every feature against root tokens at the model's ids.
-Scripted scenarios: error paths of unsynchronised hierarchies (`apply_manual_indices` must refuse
+Access patterns: at every checked member, `child[feat][index]` for integers (incl. negative),
+slices with steps, boolean masks, sorted / reversed / permuted / repeated / out-of-range index
+lists and arrays on every feature kind: returned data must be the numpy-indexed selection of the
+parent's events; an exception is only accepted if the parent container refuses the mapped access
+too (h5py rejects unsorted lists).  12 % of the histories run on scalar-only roots with 300–70000
+events and narrow windows far from index 0 (small members with root indices >= 256 / >= 65536;
+property oracle only, the Lean model is not run on them).
+Scripted scenarios: fixed access-pattern list on a dict and an hdf5 root, error paths of unsynchronised hierarchies (`apply_manual_indices` must refuse
 on members below a partial refresh), the F32 history, and the corpus.
 """
 import json
@@ -34,7 +41,10 @@ RULE = ("seeded histories of 10-80 operations over {set range at any level (50% 
         "shifts of an identity-feature window on an ancestor), manual exclude/re-include at any "
         "level, temporary feature at any member, pixel-size change, rejuvenate youngest, and in "
         "50% of the histories rejuvenate / set_temporary_feature on an intermediate member} on "
-        "hierarchies of depth 1-4 over RTDC_Dict / RTDC_HDF5 roots with 6-14 events; a history is "
+        "hierarchies of depth 1-4 over RTDC_Dict / RTDC_HDF5 roots with 6-14 events (12%: "
+        "scalar-only roots with 300-70000 events, narrow windows at large indices); random index "
+        "expressions (int, negative, slices, masks, sorted/reversed/permuted/repeated/out-of-range "
+        "lists and arrays) on sampled feature kinds of every checked member; a history is "
         "non-trivial when at least one rejuvenate saw an ancestor change that kept the parent's "
         "boolean pattern of some deeper member or re-created a filter with hidden manual ids; "
         "distinct = distinct canonical (root, depth, op list).")
@@ -106,11 +116,32 @@ def make_spec(rng, kind):
             "bright_avg": [rng.randint(0, 3) for _ in range(n)]}
 
 
+def make_big_spec(rng):
+    """scalar-only root with many events: members deep down are small but their root indices
+    are large (>= 256, >= 65536), so any narrowing of stored indices shows"""
+    n = rng.choice([300, 700, 3000, 66000, 70000])
+    return {"kind": "dict", "big": True, "n": n, "seed": rng.randrange(10**6)}
+
+
+def big_columns(spec):
+    n = spec["n"]
+    r = np.random.RandomState(spec["seed"])
+    return {"userdef0": np.arange(n, dtype=float),
+            "area_cvx": r.randint(0, 5, n).astype(float),
+            "bright_avg": r.randint(0, 4, n).astype(float),
+            "deform": ((np.arange(n) * 7919) % 65536) / 1024.0 + 1 / 1024}
+
+
 def open_root(ctx, spec):
     dclab = common.import_dclab()
     from dclab.rtdc_dataset import feat_temp
     if not dclab.definitions.feature_exists(TMP):
         feat_temp.register_temporary_feature(TMP)
+    if spec.get("big"):
+        ds = dclab.new_dataset(big_columns(spec))
+        ds.config["imaging"]["pixel size"] = 0.34
+        feat_temp.set_temporary_feature(ds, TMP, np.arange(spec["n"], dtype=float) * 0.5 + 100)
+        return ds
     toks, n = spec["tokens"], spec["n"]
     if spec["kind"] == "dict":
         d = {"deform": gen.rows("deform", toks), "image": gen.rows("image", toks),
@@ -136,6 +167,117 @@ def open_root(ctx, spec):
         ds = dclab.new_dataset(path)
     feat_temp.set_temporary_feature(ds, TMP, np.arange(n, dtype=float) * 0.5 + 100)
     return ds
+
+
+def index_patterns(rng, n, k):
+    """k random index expressions for a container of n events: (description, index)"""
+    out = []
+    kinds = ["int", "neg", "slice", "bool", "sorted", "reversed", "perm", "repeat", "oob",
+             "perm", "perm"]
+    for _ in range(k):
+        kind = rng.choice(kinds)
+        m = rng.randint(0, min(n, 6))
+        sub = sorted(rng.sample(range(n), m)) if n else []
+        if kind == "int" and n:
+            ix = rng.randrange(n)
+        elif kind == "neg" and n:
+            ix = -rng.randint(1, n)
+        elif kind == "slice":
+            ix = slice(rng.choice([None, 0, 1, -2, n // 2]), rng.choice([None, n, -1, n // 2 + 1]),
+                       rng.choice([None, 1, 2, 3, -1, -2]))
+        elif kind == "bool":
+            ix = np.array([rng.random() < 0.5 for _ in range(n)], dtype=bool)
+        elif kind == "sorted":
+            ix = sub
+        elif kind == "reversed":
+            ix = sub[::-1]
+        elif kind == "perm":
+            ix = list(sub)
+            rng.shuffle(ix)
+        elif kind == "repeat" and n:
+            ix = [rng.choice(sub or [0]) for _ in range(rng.randint(1, 5))]
+        elif kind == "oob":
+            ix = rng.choice([n, n + 3, -n - 1, [0, n] if n else [0]])
+        else:
+            ix = []
+        if isinstance(ix, list) and rng.random() < 0.5:
+            ix = np.array(ix, dtype=int)
+            kind += "/array"
+        elif isinstance(ix, list):
+            kind += "/list"
+        out.append((kind, ix))
+    return out
+
+
+PSTAT = {}
+
+
+def _get(container, ix):
+    try:
+        return "data", container[ix]
+    except Exception as e:
+        return "err", common.err_class(e)
+
+
+def _same(a, b):
+    try:
+        if isinstance(a, (list, tuple)) or isinstance(b, (list, tuple)) \
+                or (hasattr(a, "dtype") and a.dtype == object):
+            a, b = list(a), list(b)
+            return len(a) == len(b) and all(np.array_equal(np.asarray(x), np.asarray(y))
+                                            for x, y in zip(a, b))
+        return np.array_equal(np.asarray(a), np.asarray(b), equal_nan=True) \
+            and np.asarray(a).shape == np.asarray(b).shape
+    except Exception:
+        return False
+
+
+def _take(full, ix):
+    """numpy indexing semantics on a materialised list of events"""
+    pos = np.arange(len(full))[ix]                   # may raise IndexError like numpy
+    if np.ndim(pos) == 0:
+        return full[int(pos)]
+    return [full[int(q)] for q in pos]
+
+
+def access_patterns(L, P, i, rng, k, big, patterns=None, all_feats=False):
+    """`child[feat][index]` for many kinds of index: when it returns data these must be the
+    events `parent[feat][parent.filter.all][index]` in numpy's sense (order, repetitions);
+    when it raises, accessing the parent with the mapped indices must raise the same way."""
+    bad = []
+    n = len(L)
+    sel = np.where(np.asarray(P.filter.all))[0]
+    feats = ["deform", "userdef0"] if big else \
+        ["deform", "image", "mask", "contour", "trace/fl1_raw", "trace/fl1_median"]
+    for f in (feats if all_feats else rng.sample(feats, min(len(feats), 3))):
+        if f.startswith("trace/"):
+            cL, cP = L["trace"][f[6:]], P["trace"][f[6:]]
+        else:
+            cL, cP = L[f], P[f]
+        full = [cP[int(q)] for q in sel]             # one event at a time: the plain path
+        for kind, ix in (patterns or index_patterns(rng, n, k)):
+            tag, got = _get(cL, ix)
+            key = f"access_{kind}_{'ok' if tag == 'data' else got}"
+            PSTAT[key] = PSTAT.get(key, 0) + 1
+            try:
+                want = ("data", _take(full, ix))
+            except IndexError:
+                want = ("err", "err:index")
+            if tag == "data":
+                if want[0] != "data" or not _same(got, want[1]):
+                    bad.append(f"L{i}: {f}[{kind} index] does not return the selected events of "
+                               f"the parent in the requested order")
+                    return bad
+            else:
+                try:
+                    direct = _get(cP, sel[ix])
+                except IndexError:
+                    direct = ("err", "err:index")
+                if want[0] == "data" and direct[0] == "data":
+                    bad.append(f"L{i}: {f}[{kind} index] raises {got} although the parent "
+                               f"supports the mapped access")
+                    return bad
+    return bad
 
 
 class Real:
@@ -239,7 +381,8 @@ class Real:
         root = self.lv[0]
         rtmp = np.asarray(root[TMP][:])
         rarea = np.asarray(root["area_um"][:])
-        rtoks = self.spec["tokens"]
+        big = bool(self.spec.get("big"))
+        rtoks = self.spec.get("tokens")
         for i in range(upto + 1):
             L = self.lv[i]
             try:
@@ -258,7 +401,8 @@ class Real:
                         if a.shape != b.shape or not np.array_equal(a, b, equal_nan=True):
                             bad.append(f"L{i}: scalar {f} is not parent[{f}][parent.filter.all]")
                     pos = list(range(n)) if full or n <= 2 else sorted(rng.sample(range(n), 2))
-                    for p in pos:
+                    bad.extend(access_patterns(L, P, i, rng, 6 if full else 2, big))
+                    for p in ([] if big else pos):
                         q = int(sel[p])
                         for f in ("image", "mask", "contour"):
                             if not np.array_equal(np.asarray(L[f][p]), np.asarray(P[f][q])):
@@ -273,9 +417,14 @@ class Real:
                     bad.append(f"L{i}: temporary feature differs from the root's at its ids")
                 if not np.array_equal(np.asarray(L["area_um"][:]), rarea[idx], equal_nan=True):
                     bad.append(f"L{i}: computed area_um differs from the root's at its ids")
-                dt = [tok("deform", v) for v in np.asarray(L["deform"][:])]
-                if dt != [ctok("deform", rtoks[r]) for r in ids]:
-                    bad.append(f"L{i}: deform tokens are not the root tokens at its ids")
+                if big:
+                    if not np.array_equal(np.asarray(L["deform"][:]),
+                                          np.asarray(root["deform"][:])[idx]):
+                        bad.append(f"L{i}: deform differs from the root's at its ids")
+                else:
+                    dt = [tok("deform", v) for v in np.asarray(L["deform"][:])]
+                    if dt != [ctok("deform", rtoks[r]) for r in ids]:
+                        bad.append(f"L{i}: deform tokens are not the root tokens at its ids")
                 # manual exclusions stick to events
                 man = np.asarray(L.filter.manual)
                 if len(man) != n:
@@ -323,7 +472,11 @@ def gen_history(rng, spec, depth, real, nops):
     exclusions live on the deeper members — the F04 situation.  style 'mixed': anything anywhere.
     """
     n = spec["n"]
-    style = "shift" if depth >= 2 and rng.random() < 0.6 else "mixed"
+    big = bool(spec.get("big"))
+    style = "shift" if depth >= 2 and (big or rng.random() < 0.6) else "mixed"
+    # big roots: narrow windows far from index 0, so that small members hold large root indices
+    base = 0 if not big else (rng.randint(65536, n - 40) if n > 66000 and rng.random() < 0.7
+                              else rng.randint(256, n - 40))
     partial = depth >= 2 and rng.random() < 0.5      # refreshes of intermediate members, too
     synced_upto = depth                              # members above this one may be stale
     low = [0] if depth < 3 or rng.random() < 0.6 else [0, 1]        # members that carry windows
@@ -331,6 +484,10 @@ def gen_history(rng, spec, depth, real, nops):
     windows = {}
     since = 0
     last = None
+    if big:
+        windows[0] = (base, rng.randint(4, 12))
+        yield ("set", 0, 0, windows[0][0], windows[0][0] + windows[0][1])
+        yield ("rejuv",)
     for _ in range(nops):
         x = rng.random()
         if partial and since > 0 and rng.random() < 0.10:
@@ -349,6 +506,9 @@ def gen_history(rng, spec, depth, real, nops):
                 if lvl in windows and rng.random() < 0.85:
                     a, w = windows[lvl]
                     a = max(0, min(n - 1 - w, a + rng.choice([-2, -1, 1, 1, 2])))
+                elif big:
+                    w = rng.randint(2, 12)
+                    a = base + rng.randint(0, 20)
                 else:
                     w = rng.randint(1, max(1, n - 4))
                     a = rng.randint(0, max(0, n - 1 - w))
@@ -357,7 +517,7 @@ def gen_history(rng, spec, depth, real, nops):
             else:
                 lvl = rng.choice(deep) if style == "shift" and rng.random() < 0.85 \
                     else rng.randrange(0, depth + 1)
-                f = rng.choice([1, 1, 2, 0])
+                f = rng.choice([1, 1, 2, 0]) if not big else rng.choice([1, 1, 2])
                 top = n - 1 if f == 0 else (4 if f == 1 else 3)
                 lo, hi = rng.randint(-1, top), rng.randint(0, top + 1)
                 if rng.random() < 0.15:
@@ -508,11 +668,9 @@ def execute(ctx, spec, depth, ops, rng, lines=None, expect=None, full_last=True,
 
 
 def fails_on_real(ctx, spec, depth, ops):
-    class R:                                  # deterministic sampler for the shrinker
-        def sample(self, pop, k):
-            return list(pop)[:k]
-    try:
-        f, _ = execute(ctx, spec, depth, list(ops), R(), full_last=True)
+    import random
+    try:                                      # deterministic sampler for shrinker and replay
+        f, _ = execute(ctx, spec, depth, list(ops), random.Random(20260929), full_last=True)
     except HErr:
         return []
     return f
@@ -562,7 +720,8 @@ def shrink(ctx, spec, depth, ops):
 def script(spec, depth, ops):
     """self-contained replay script for humans"""
     s = ["# root: %s with %d events; userdef0 = arange(n) (identity), area_cvx = %s, bright_avg = %s"
-         % (spec["kind"], spec["n"], spec["area_cvx"], spec["bright_avg"]),
+         % (spec["kind"], spec["n"], spec.get("area_cvx", "RandomState(seed).randint(0, 5, n)"),
+            spec.get("bright_avg", "…randint(0, 4, n)")),
          "L = [root]; " + "; ".join(f"L.append(RTDC_Hierarchy(L[{i}]))" for i in range(depth))]
     for op in ops:
         if op[0] == "set":
@@ -658,6 +817,53 @@ def _error_paths(ctx):
                               f"['err:hierarchy', 'kept', 'ok']", {"part": "error_paths"})
 
 
+def access_scenario(ctx):
+    """fixed list of index expressions on every feature kind, members of a dict and an hdf5 root"""
+    from dclab.rtdc_dataset import RTDC_Hierarchy
+    pats = [("int", 0), ("neg", -1), ("neg", -3), ("slice", slice(None, None, 2)),
+            ("slice", slice(1, -1, None)), ("slice", slice(None, None, -1)),
+            ("slice", slice(4, 0, -2)), ("bool", None), ("sorted/list", [0, 2, 3]),
+            ("reversed/list", [3, 2, 0]), ("perm/list", [2, 0, 1]), ("perm/array", None),
+            ("perm/list", [3, 1, 0, 2]), ("repeat/list", [1, 1, 0]), ("repeat/array", None),
+            ("empty/list", []), ("oob", 99), ("oob", [0, 99])]
+    try:
+        for kind in ("dict", "hdf5"):
+            spec = make_spec(ctx.rng, kind)
+            spec["n"], spec["tokens"] = 12, list(range(12))
+            spec["area_cvx"] = [i % 5 for i in range(12)]
+            spec["bright_avg"] = [i % 4 for i in range(12)]
+            if kind == "hdf5":
+                spec["path"] = ctx.workdir / "access.rtdc"
+            root = open_root(ctx, spec)
+            c1 = RTDC_Hierarchy(root)
+            c2 = RTDC_Hierarchy(c1)
+            root.config["filtering"]["userdef0 min"] = 1.0
+            root.config["filtering"]["userdef0 max"] = 10.0
+            c1.filter.manual[4] = False
+            c2.rejuvenate()
+            for i, (L, P) in enumerate([(c1, root), (c2, c1)], start=1):
+                n = len(L)
+                pp = []
+                for k, ix in pats:
+                    if k == "bool":
+                        ix = np.arange(n) % 3 != 1
+                    elif k == "perm/array":
+                        ix = np.array([2, 0, 1])
+                    elif k == "repeat/array":
+                        ix = np.array([0, 2, 2, 1])
+                    pp.append((k, ix))
+                bad = access_patterns(L, P, i, ctx.rng, 0, False, patterns=pp, all_feats=True)
+                ctx.stat("access_scenario_members")
+                if bad:
+                    ctx.violation("spec", f"{kind} root, " + bad[0], {"part": "access_scenario"})
+                    return
+            if hasattr(root, "h5file"):
+                root.h5file.close()
+    except Exception as e:
+        ctx.violation("spec", f"access scenario raised {type(e).__name__}: {e}"[:200],
+                      {"part": "access_scenario"})
+
+
 def intermediate_refresh(ctx):
     """F32 (Properties/C04.lean: intermediate_refresh_witness, history h1) replayed on dclab"""
     from dclab.rtdc_dataset import RTDC_Hierarchy, feat_temp
@@ -728,26 +934,31 @@ def run(ctx):
     lines, expect, cases = [], [], []
     error_paths(ctx)
     intermediate_refresh(ctx)
+    access_scenario(ctx)
     for h in range(nhist):
         if time.time() - ctx.t0 > budget:
             ctx.stat("histories_skipped_for_time", nhist - h)
             break
-        if ctx.rng.random() < 0.3:
+        x = ctx.rng.random()
+        if x < 0.12:
+            spec = make_big_spec(ctx.rng)
+        elif x < 0.38:
             spec = ctx.rng.choice(h5specs)
         else:
             spec = make_spec(ctx.rng, "dict")
-        depth = ctx.rng.choice([1, 2, 2, 3, 3, 4])
+        big = bool(spec.get("big"))
+        depth = ctx.rng.choice([1, 2, 2, 3, 3, 4]) if not big else ctx.rng.choice([2, 3, 3, 4])
         nops = ctx.rng.randint(10, 80 if ctx.thorough else 45)
         start = len(lines)
         fails, info = execute(
             ctx, spec, depth,
             lambda real: gen_history(ctx.rng, spec, depth, real, nops),
-            ctx.rng, lines=lines if ctx.lean_ok else None, expect=expect)
+            ctx.rng, lines=lines if ctx.lean_ok and not big else None, expect=expect)
         ops = info["ops"]
         sp = {k: v for k, v in spec.items() if k != "path"}
         ctx.stat("histories")
         ctx.stat(f"depth_{depth}")
-        ctx.stat(f"root_{spec['kind']}")
+        ctx.stat(f"root_{spec['kind']}" + ("_big_scalar_only(oracle only)" if big else ""))
         ctx.stat("ops", len(ops))
         ctx.stat("refreshes", info["refreshes"])
         ctx.stat("refreshes_of_intermediate_members", info["partial"])
@@ -762,13 +973,17 @@ def run(ctx):
                  nontrivial=info["f04_trigger"] or info["hidden"],
                  sample={"root": f"{spec['kind']} n={spec['n']}", "depth": depth,
                          "ops": [list(o) for o in ops[:8]], "n_ops": len(ops)} if h < 3 else None)
-        cases.append((spec, depth, ops, start, len(lines)))
+        if not big:
+            cases.append((spec, depth, ops, start, len(lines)))
         if fails:
             ctx.stat("oracle_failures")
             if sum(1 for v in ctx.violations if v["kind"] == "spec") < 2:
                 report(ctx, spec, depth, ops, fails)
             if len(ctx.violations) >= 2 and h > 20:
                 break
+    for k, v in sorted(PSTAT.items()):
+        ctx.stat(k, v)
+    PSTAT.clear()
     if not ctx.lean_ok:
         return
     out = ctx.lean("C04", lines)
